@@ -233,6 +233,10 @@ class GateDomain(Domain):
             return [("ok", NONE, state)]
         if name == "isinstance":
             return [("ok", TOP, state)]
+        if isinstance(node.func, ast.Name) and self.fn is not None and node.func.id in self.fn.module.functions:
+            res = self.inline(node, self.fn.module.functions[node.func.id], args, kwargs, state)
+            if res is not None:
+                return res
         if name.startswith("self._") and name.count(".") == 1 and self.prog is not None:
             # other private helpers of the class (e.g. an extracted legacy (server, port) normaliser) are inlined
             m = self.prog.method("HashClient", name[5:], required=False)
@@ -256,12 +260,55 @@ def _vkey(v):
         return repr(v)
 
 
+class _Muted:
+    """A rule whose verdicts are not taken: the symbolic tables of R1-R4 read the failure record in one representation
+    (a dict with the fields 'attempts' and 'failed_time' per failing server).  When the code keeps that record in another
+    form (a small class, parallel dicts, a deadline instead of a time stamp) the tables do not apply; what they stand
+    for is then decided by the histories of R7, which interpret whatever representation there is."""
+
+    def __init__(self, rule):
+        self.__dict__["_r"] = rule
+
+    def __getattr__(self, n):
+        return getattr(self._r, n)
+
+    def fail(self, construct, msg, **kw):
+        return None
+
+    def expect(self, cond, what, construct, msg, **kw):
+        if cond:
+            self._r.ok(what)
+
+    def undecided(self, construct, msg):
+        return None
+
+    def floor(self, name, n, minimum):
+        self._r.count(name, n)
+
+
+def _canonical_record(prog, hc):
+    """Is the failure record kept as `self._failed_clients[server] = {"failed_time": ..., "attempts": ...}`?"""
+    mk = prog.method(hc, "_mark_failed_server", required=False)
+    if mk is None:
+        return False
+    for n in ast.walk(mk.node):
+        if isinstance(n, ast.Dict) and {k.value for k in n.keys if isinstance(k, ast.Constant)} >= {"attempts", "failed_time"}:
+            return True
+    return False
+
+
 def run(chk):
     prog = chk.prog
     hc = prog.cls("HashClient")
+    canonical = _canonical_record(prog, hc)
     # ------------------------------------------------------------------ R1 gate table, both twins
     r1 = chk.rule("C13.R1", "gate decision table of _safely_run_func and _safely_run_set_many over (failing, attempts vs retry_attempts, elapsed, outcome, ignore_exc)")
     r5 = chk.rule("C13.R5", "only the server's own error escapes: nothing is raised with ignore_exc, otherwise the caught exception itself")
+    r5_real = r5
+    if not canonical:
+        for r_ in (r1, r5):
+            r_.note("the failure record is not a {'failed_time', 'attempts'} dict per server: the symbolic gate tables do not apply to this representation; decided by the histories of R7")
+        r1, r5 = _Muted(r1), _Muted(r5)
     gate_forms = {}
     n_rows = 0
     for mname in ("_safely_run_func", "_safely_run_set_many"):
@@ -366,6 +413,9 @@ def run(chk):
     # time comparison direction (strictness free)
     # ------------------------------------------------------------------ R3 failure accounting + R2 budget
     r3 = chk.rule("C13.R3", "failure accounting table of _mark_failed_server over (already failing, retry_attempts > 0)")
+    if not canonical:
+        r3.note("not applicable to this representation of the failure record; decided by the histories of R7")
+        r3 = _Muted(r3)
     mf = prog.method(hc, "_mark_failed_server")
     c0 = None
     inc = None
@@ -418,6 +468,9 @@ def run(chk):
         if not problems:
             r3.ok("_mark_failed_server(failing=%s, retries configured=%s) behaves as specified" % (in_failed, rpos))
     r2 = chk.rule("C13.R2", "retry budget: the counter protocol (initial value, +1 per repeated failure) and the gate threshold permit exactly retry_attempts retries before eviction")
+    if not canonical:
+        r2.note("not applicable to this representation of the failure record; decided by the histories of R7")
+        r2 = _Muted(r2)
     gf = gate_forms.get("_safely_run_func") or set()
     if len(gf) != 1 or c0 is None or inc is None:
         r2.fail("HashClient:retry-budget-underivable", "cannot derive the retry budget (gate forms %s, initial counter %s, increment %s)" % (sorted((o.__name__, c) for o, c in gf), c0, inc), fn=mf)
@@ -435,6 +488,9 @@ def run(chk):
 
     # ------------------------------------------------------------------ R4 coupled eviction / revival
     r4 = chk.rule("C13.R4", "eviction and revival update hasher, dead set and failing set together; the dead scan runs, re-adds and re-arms only when dead_timeout has elapsed")
+    if not canonical:
+        r4.note("not applicable to this representation of the failure record; decided by the histories of R7")
+        r4 = _Muted(r4)
     rs = prog.method(hc, "remove_server")
     dom = GateDomain(prog, rs, dict(in_failed=True, delta=0))
     outs = Interp(dom, rs.node, prog).run(Env({"#ev": (), rs.pos_params()[0].name: Opaque("server"), "port": NONE}))
@@ -471,6 +527,23 @@ def run(chk):
                     r4.expect("revive" not in names, "_retry_dead: a server dead for less than dead_timeout stays out", "HashClient._retry_dead:early-revival", "a server is re-added before its dead_timeout has elapsed", fn=rd, witness=fmt_trace(t))
     # who writes the failover state
     allowed = {"_failed_clients": {"HashClient.__init__", "HashClient._mark_failed_server", "HashClient.remove_server", "HashClient._safely_run_func", "HashClient._safely_run_set_many", "AWSElastiCacheHashClient.__init__", "AWSElastiCacheHashClient.reconfigure_nodes"}, "_dead_clients": {"HashClient.__init__", "HashClient.remove_server", "HashClient._retry_dead", "AWSElastiCacheHashClient.__init__", "AWSElastiCacheHashClient.reconfigure_nodes"}}
+    # a private helper all of whose call sites are inside the state machine belongs to it (bookkeeping moved into
+    # _enter_rotation / _leave_rotation style helpers)
+    callers = {}
+    for f in prog.all_functions():
+        for n in walk_no_nested(f.node):
+            if isinstance(n, ast.Call) and isinstance(n.func, ast.Attribute) and isinstance(n.func.value, ast.Name) and n.func.value.id == "self" and n.func.attr.startswith("_") and not n.func.attr.startswith("__"):
+                callers.setdefault(n.func.attr, set()).add(f.qualname)
+    for attr_ in allowed:
+        changed = True
+        while changed:
+            changed = False
+            for cname_ in ("HashClient", "AWSElastiCacheHashClient"):
+                for mname_, m_ in prog.cls(cname_).methods.items():
+                    q_ = m_.qualname
+                    if q_ not in allowed[attr_] and mname_ in callers and callers[mname_] <= allowed[attr_]:
+                        allowed[attr_].add(q_)
+                        changed = True
     for f in prog.all_functions():
         for n in walk_no_nested(f.node):
             attr = None
@@ -498,6 +571,7 @@ def run(chk):
         init_ = prog.method(cls_, "__init__")
         if init_.cls is not cls_:
             continue
+        r5 = r5_real
         hinit, hadd, hcreated = pooled_an.created_client_options(prog, cname, "add_server")
         if not hcreated:
             raise AnalysisError("C13.R5: no construction of a per-server client is reached through %s.__init__ + add_server" % cname)
@@ -514,6 +588,9 @@ def run(chk):
     from . import failhist
 
     inc = getattr(chk, "included_for", None)
+    if inc is not None and "C13.R7" not in inc and not canonical:
+        # an including check asked for the tables, which do not apply here: run the histories in their place
+        failhist.failover_histories(prog, r1._r if isinstance(r1, _Muted) else r1, chk.tier)
     if inc is not None and "C13.R7" not in inc:
         r7.note("not run inside another property's check (C13.R1-R6 are what is included there)")
         r7.ok("skipped in an included run")
